@@ -7,14 +7,16 @@ package app
 import (
 	"bytes"
 	"fmt"
+	"github.com/Dash-Industry-Forum/livesim2/internal/vhook"
 	"os"
 	"path/filepath"
+	"runtime"
 	"strings"
+	"sync"
 	"sync/atomic"
 	"testing"
 	"time"
 
-	"github.com/Dash-Industry-Forum/livesim2/internal/vhook"
 	"verif.local/vlib/ora"
 	"verif.local/vlib/rep"
 )
@@ -104,6 +106,38 @@ func TestVerifC17(t *testing.T) {
 			}
 		}
 		perm(0)
+	}
+	// a retried (duplicate) upload of number N by track X while track Y has not delivered N yet: every (X, Y) for 3..5 tracks
+	for T := 3; T <= 5; T++ {
+		for X := 0; X < T; X++ {
+			for Y := 0; Y < T; Y++ {
+				if X == Y {
+					continue
+				}
+				var ups []vfUp
+				for n := uint32(100); n < 103; n++ {
+					for tr := 0; tr < T; tr++ {
+						ups = append(ups, vfUp{tr: tr, seq: n})
+					}
+				}
+				for tr := 0; tr < T; tr++ {
+					if tr != Y {
+						ups = append(ups, vfUp{tr: tr, seq: 103})
+					}
+				}
+				ups = append(ups, vfUp{tr: X, seq: 103, dup: true})
+				for tr := 0; tr < T; tr++ { // the others go on, Y is still one behind
+					if tr != Y {
+						ups = append(ups, vfUp{tr: tr, seq: 104})
+					}
+				}
+				ups = append(ups, vfUp{tr: Y, seq: 103}, vfUp{tr: Y, seq: 104})
+				for tr := 0; tr < T; tr++ {
+					ups = append(ups, vfUp{tr: tr, seq: 105})
+				}
+				scheds = append(scheds, vfSched{name: fmt.Sprintf("retry-before-last-track-%d", T), nTracks: T, tsbd: 20, ups: ups, firstSeq: 100, shape: "duplicates"})
+			}
+		}
 	}
 	// seeded large
 	nSeeded := r.Pick(120, 4000)
@@ -223,6 +257,43 @@ func vfRunSched(t *testing.T, r *rep.R, s vfSched, ci int) {
 	cfg := &Config{Channels: []ChannelConfig{{Name: chName, StartNr: s.startNr}}}
 	rv := vfNewReceiver(t, s.tsbd, cfg)
 	defer rv.close()
+	if ci%5 == 0 {
+		// every fifth schedule: a reader polls the published MPD while the receiver rewrites it, with the write itself slowed down
+		// (delay point between creating and filling the file) - a reader must never see an incomplete document
+		vhook.SetDelay("recv.before-write-timeline-mpd", 200*time.Microsecond)
+		stop := make(chan struct{})
+		var wg sync.WaitGroup
+		wg.Add(1)
+		mp := filepath.Join(rv.storage, chName, "manifest_timeline_nr.mpd")
+		go func() {
+			defer wg.Done()
+			reads, bad := int64(0), ""
+			for {
+				select {
+				case <-stop:
+					r.Add("concurrent_mpd_reads", reads)
+					if bad != "" {
+						r.Violation("timeline-mpd-not-a-complete-document:seen-by-concurrent-reader", map[string]any{"schedule": vfUpsStr(s.ups), "family": s.name + "/" + s.shape, "what": bad})
+					}
+					return
+				default:
+				}
+				if b, err := os.ReadFile(mp); err == nil {
+					reads++
+					if bad == "" && !(bytes.Contains(b, []byte("<MPD")) && bytes.Contains(b, []byte("</MPD>"))) {
+						bad = fmt.Sprintf("read %d returned %d bytes: %q", reads, len(b), b[:min(len(b), 80)])
+					}
+				} else {
+					runtime.Gosched()
+				}
+			}
+		}()
+		defer func() {
+			close(stop)
+			wg.Wait()
+			vhook.SetDelay("recv.before-write-timeline-mpd", 0)
+		}()
+	}
 	tracks := make([]*vfTrack, s.nTracks)
 	for i := range tracks {
 		if i == 0 || i%3 == 0 {
@@ -231,8 +302,8 @@ func vfRunSched(t *testing.T, r *rep.R, s vfSched, ci int) {
 			tracks[i] = vfMakeTrack(t, fmt.Sprintf("a%d", i), "audio", 48000, 96000, 4) // 2 s
 		}
 	}
-	base := vhook.Count("recv.processed")
-	expected := 0
+	vfEvReset()
+	expected := 0 // channel messages of accepted uploads: 2 per single-chunk upload (data + completion)
 	sigp := ""
 	newestOf := make([]int64, s.nTracks)
 	for i := range newestOf {
@@ -333,7 +404,18 @@ func vfRunSched(t *testing.T, r *rep.R, s vfSched, ci int) {
 									lead = "track-lead>=2"
 								}
 							}
-							r.Violation(sigp+"mpd-lists-number-without-stored-segment:"+lead, det(fmt.Sprintf("%s: number %d listed but %s/%d%s is not stored (listed range starts at %d)", step, nr, tr.name, nr, tr.ext, f)))
+							// was the segment delivered (and accepted) before? then it was deleted while still listed; else it was never there
+							ti := -1
+							for i, x := range tracks {
+								if x == tr {
+									ti = i
+								}
+							}
+							if _, was := uploaded[fmt.Sprintf("%d/%d", ti, nr+int64(s.startNr))]; !was {
+								r.Violation(sigp+"mpd-lists-number-never-delivered-by-a-track", det(fmt.Sprintf("%s: number %d listed but track %s has not delivered it (listed range starts at %d)", step, nr, tr.name, f)))
+								return false
+							}
+							r.Violation(sigp+"mpd-lists-number-whose-segment-was-deleted:"+lead, det(fmt.Sprintf("%s: number %d listed but %s/%d%s is not stored (listed range starts at %d)", step, nr, tr.name, nr, tr.ext, f)))
 							return false
 						}
 						ps, err := ora.ParseSegment(fb, nil)
@@ -394,8 +476,8 @@ func vfRunSched(t *testing.T, r *rep.R, s vfSched, ci int) {
 			r.Violation(sigp+fmt.Sprintf("media-upload-status-%d", code), det(fmt.Sprintf("%s track %s seq %d", step, tracks[tr].name, seq)))
 			return false
 		}
-		if !vfQuiesce(base + expected) {
-			r.Violation(sigp+"receiver-stopped-processing-uploads", det(fmt.Sprintf("%s: %d of %d channel messages processed after 20 s", step, vhook.Count("recv.processed")-base, expected)))
+		if !vfWaitCompleted(chName, expected/2, 20*time.Second) {
+			r.Violation(sigp+"receiver-stopped-processing-uploads", det(fmt.Sprintf("%s: %d of %d accepted uploads handled by the channel goroutine after 20 s", step, vfCompleted(chName), expected/2)))
 			return false
 		}
 		if code == 200 {
